@@ -164,6 +164,10 @@ pub(crate) mod verif {
 		Ok(Box::new(Encoder::from_reader(reader)?))
 	}
 
+	pub(crate) fn events<R: Read>(reader: R) -> Vec<(u32, u64, u64)> {
+		super::chunker::verif_events(reader)
+	}
+
 	pub(crate) fn chunks<R: Read>(reader: R) -> Vec<io::Result<(String, bool)>> {
 		let mut chunks = vec![];
 		for doc in Chunker::new(reader) {
